@@ -158,6 +158,24 @@ func ParseRace(stderr string) []RaceReport {
 		out = append(out, RaceReport{Sig: "race:" + funcs[0] + "|" + funcs[1], Scenario: scenario, Funcs: [2]string{funcs[0], funcs[1]}, Text: text, Martian: martian})
 	}
 	for _, l := range strings.Split(stderr, "\n") {
+		if strings.HasPrefix(l, "RACEBODY VIOLATION ") {
+			// an assertion of the free-running body itself (e.g. duplicate ids under real parallelism)
+			rest := strings.TrimPrefix(l, "RACEBODY VIOLATION ")
+			sig := rest
+			if i := strings.IndexByte(rest, ' '); i > 0 {
+				sig = rest[:i]
+			}
+			dup := false
+			for _, o := range out {
+				if o.Sig == "parallel:"+sig {
+					dup = true
+				}
+			}
+			if !dup {
+				out = append(out, RaceReport{Sig: "parallel:" + sig, Scenario: scenario, Funcs: [2]string{"assertion", "assertion"}, Text: rest, Martian: true})
+			}
+			continue
+		}
 		if strings.HasPrefix(l, "RACE scenario ") {
 			scenario = strings.TrimPrefix(l, "RACE scenario ")
 			continue
